@@ -30,7 +30,7 @@ func vC19RecvTerm(recording bool, ops []vRecvOp, vec [vC19NCounters]int64) strin
 	for i, o := range ops {
 		it[i] = vPair(vZ(int64(o.sig)), vPair(vZ(int64(o.n)), vBool(o.err)))
 	}
-	return "CRecv " + vBool(recording) + " " + vList(it) + " " + vC19Vec(vec)
+	return "(CRecv " + vBool(recording) + " " + vList(it) + " " + vC19Vec(vec) + ")"
 }
 
 func vC19Size(rng *vRand) int {
